@@ -18,7 +18,7 @@ Section NoDollarAddr.
 
   Lemma chain_node0_seg s r : exists b2, chain_node0 cfg s r = seg (RPlain s) b2 b2 (fin (pres cfg r)) /\ accessor b2 = cfg_accessor cfg.
   Proof.
-    unfold chain_node0. cbn [seg]. eexists. split; [reflexivity|]. destruct s as [q k|k|ds|[|]|a b c0]; reflexivity.
+    unfold chain_node0. cbn [seg]. eexists. split; [reflexivity|]. destruct s as [q k|k|ds|[|]|a b c0|u us]; reflexivity.
   Qed.
 
   Lemma spec_chain0 s r doc : step_ok s = true -> forallb rstep_ok r = true -> small doc ->
